@@ -185,6 +185,31 @@ def gen_py_file(rnd):
     body = '%s"""%s"""\n%sreturn 1\n' % (ind, doc, ind)
     txt = "import pytest\n\n@pytest.fixture\ndef %s(%s):\n%s\n" % (nm, rnd.choice(["", "a", "a, b=1", "éé: int"]), body)
     txt += "def test_x(%s%s):\n%s%s\n" % (nm, rnd.choice(["", ": int", " : 'T'", "　= 3"]), ind, rnd.choice(["pass", "x = %s" % nm, '"""　\n  d\n　　e"""']))
+    # fixtures named inside string literals: names that are prefixes / suffixes / infixes of one
+    # another, with multi-byte first and last characters, in every literal shape the analyzer reads
+    if rnd.random() < 0.7:
+        base = rnd.choice(["été", "中", "café", "fx", "ß", "éé", "𝒇x", "a"])
+        longer = rnd.choice([base + "_db", "x_" + base, base + base, base + "é", "é" + base, base + "1"])
+        names = rnd.choice([[longer, base], [base, longer], [longer, longer, base], [base], [longer + base, base, longer]])
+        sep = rnd.choice([",", ", ", " ,", ",　", " , "])
+        lit = sep.join(names)
+        q = rnd.choice(['"', "'"])
+        shape = rnd.randrange(6)
+        if shape == 0:
+            deco = "@pytest.mark.parametrize(%s%s%s, [(%s)], indirect=True)" % (q, lit, q, ", ".join("1" for _ in names))
+        elif shape == 1:
+            deco = "@pytest.mark.parametrize(%s%s%s, [(%s)], indirect=[%s%s%s])" % (q, lit, q, ", ".join("1" for _ in names), q, names[-1], q)
+        elif shape == 2:
+            deco = "@pytest.mark.usefixtures(%s)" % ", ".join(q + x + q for x in names)
+        elif shape == 3:
+            deco = "@pytest.mark.usefixtures(%s%s%s %s%s%s)" % (q, names[0][:1], q, q, names[0][1:], q)
+        elif shape == 4:
+            deco = "@pytest.mark.parametrize([%s], [(%s)], indirect=True)" % (", ".join(q + x + q for x in names), ", ".join("1" for _ in names))
+        else:
+            deco = "@pytest.mark.parametrize((%s,), [(%s)], indirect=(%s%s%s,))" % (", ".join(q + x + q for x in names), ", ".join("1" for _ in names), q, names[0], q)
+        txt += "\n%s\ndef test_lit(%s):\n%spass\n" % (deco, ", ".join(dict.fromkeys(names)) if shape in (0, 1, 4, 5) else "", ind)
+        if rnd.random() < 0.3:
+            txt += "\npytestmark = pytest.mark.usefixtures(%s%s%s)\n" % (q, lit.split(",")[0].strip(), q)
     return txt
 
 
